@@ -303,7 +303,7 @@ func checkC16(c *Ctx) {
 	reads, writes := checkIOResults(c, "C16.a", f, nr, true)
 	r.Unit("io_call_sites", reads+writes)
 	// the ok results mean what the rule assumes: closed forms of the sys wrappers
-	checkTermSpecs(c, "C16.a", "pkg/sys", c14Specs["pkg/sys"])
+	checkTermSpecsOpt(c, "C16.a", "pkg/sys", c14Specs["pkg/sys"], false)
 
 	// (b)
 	if nf, fn := f.NF("transpileOne"); fn != nil {
